@@ -1527,16 +1527,16 @@ class ActiveSelectorBasic:
         # another sorting pass.
         if not results.get('startTransitionFound'):
             prior_transition = results.get('latestPriorTransition')
-            if not prior_transition:
-                raise Exception(
-                    'Prior transition not found; should not happen')
-
-            # Adjust the transition time to be the start of the ZoneMatch.
-            prior_transition = prior_transition.copy()
-            prior_transition.originalTransitionTime = \
-                prior_transition.transitionTime
-            prior_transition.transitionTime = match.startDateTime
-            _add_transition_sorted(transitions, prior_transition)
+            # Like ActiveSelectorInPlace and the C++ code, accept a ZoneMatch
+            # without a prior transition: the most recent prior rule can fall
+            # just inside a window which starts on Jan 1 (viewing_months=13).
+            if prior_transition:
+                # Adjust the transition time to be the start of the ZoneMatch.
+                prior_transition = prior_transition.copy()
+                prior_transition.originalTransitionTime = \
+                    prior_transition.transitionTime
+                prior_transition.transitionTime = match.startDateTime
+                _add_transition_sorted(transitions, prior_transition)
 
         return transitions
 
